@@ -823,6 +823,19 @@ func (e *Env) call(n ECall) TVal {
 			}
 			return TVal{T: Term{app("<=", a.T.S, e.st.allocTop.S), SBool}}
 		}
+	case "fresh":
+		// fresh(x): the object x designates did not exist when the function under verification was entered
+		if !argc(1) {
+			return TVal{}
+		}
+		{
+			a := e.tr(n.Args[0])
+			entry := vc.entry // of the function under verification, also inside inlined callees
+			if entry == nil || entry.allocTop.S == "" {
+				return e.errf("fresh: no allocation frontier at function entry here")
+			}
+			return TVal{T: Term{app(">", a.T.S, entry.allocTop.S), SBool}}
+		}
 	case "pristine":
 		// pristine(v): v is an interface holding a pointer; what it points to is the zero value of its type
 		// (a decoder writes into it: nothing of an earlier use may be left)
